@@ -925,6 +925,17 @@ func muxRun(t *testing.T, wl any, sc SchedCfg) *Result {
 			l := l
 			e.Task(fmt.Sprintf("lcloser-%d", id), func() { l.Close(); l.Close() })
 		}
+		if w.Closers > 1 {
+			// ... and, at the same moment, of its logical connections, by one or two closers each
+			for _, id := range w.IDs {
+				if c := conns[first][id]; c != nil {
+					for n := 0; n < w.Closers-1; n++ {
+						e.Task(fmt.Sprintf("conn-closer-%d-%d", id, n), func() { c.Close(); c.Close() })
+					}
+				}
+			}
+			res.Probe("C11.connections-and-mux-closed-concurrently")
+		}
 		e.RunUntil(1000000, func() bool { return false })
 		for _, st := range w.Streams {
 			sd := sides[key(st.ID, st.Dir)]
